@@ -87,6 +87,7 @@ def row_plan(t: catalogue.T, row, i: int, rng: random.Random):
     p.opts = dict(OPTS[i % len(OPTS)])
     p.quant, p.lo, p.length = 'list', t.lo, nvis
     p.op, p.corrupt, p.view = None, None, None
+    p.delim = bool(i % 2)  # key: value containers: the new elements as bare pairs / as a delimited `{...}` of their own
     return src, p
 
 
